@@ -706,9 +706,9 @@ impl Session {
                     "Unknown alert".to_string()
                 };
                 tracing::error!("[Session] Received Alert frame (fatal): {}", alert_msg);
-                // Close all streams
-                let mut streams = self.streams.write().await;
-                for (stream_id, stream) in streams.drain() {
+                // Record the alert as the close reason of every stream
+                let streams = self.streams.read().await;
+                for (stream_id, stream) in streams.iter() {
                     let error = AnyTlsError::Protocol(format!(
                         "Session closed due to alert: {}",
                         alert_msg
@@ -717,9 +717,9 @@ impl Session {
                     tracing::debug!("[Session] Closed stream {} due to alert", stream_id);
                 }
                 drop(streams);
-                // Mark session as closed
-                self.is_closed
-                    .store(true, std::sync::atomic::Ordering::Relaxed);
+                // Full teardown: closed flag, pending opens, inbound queues, forwarding
+                // task and transport are all released by close()
+                let _ = self.close().await;
                 return Err(AnyTlsError::Protocol(format!("Alert: {}", alert_msg)));
             }
             Command::HeartRequest => {
